@@ -152,7 +152,7 @@ class Run:
                 if m.live:
                     m.live, m.why = False, 'raised'        # a dead-or-alive timer: only "no resurrection" is checked
                     m.raise_free = True
-                raise RuntimeError('callback failure injected by the harness')
+                raise KeyError('callback failure injected by the harness')    # the class the function wrapper itself catches around its name lookup
         finally:
             m.busy = False
             self.t_end = loop.time()
